@@ -1,5 +1,5 @@
 (* C18 — reads and rejected writes leave stored state untouched. *)
-From TSS Require Import AStore Seq proofs.Chain proofs.Steps proofs.Inv proofs.Agree proofs.Hist proofs.Cas proofs.Snapshot proofs.Pure.
+From TSS Require Import AStore Seq Http proofs.Chain proofs.Steps proofs.Inv proofs.Agree proofs.Hist proofs.Cas proofs.Snapshot proofs.Pure proofs.UrgencyArith proofs.HttpProps proofs.HttpReach proofs.HttpLib proofs.HttpLib2.
 Open Scope N_scope.
 
 (* (1) on the concrete store models, for ANY store contents: after GetChildVersion,
@@ -43,3 +43,16 @@ Theorem C18_declined_snapshot_no_effect : forall k cfg h c v d E h2,
   responses k cfg h ++ last (responses k cfg (h ++ [(OAddSnapshot c v d, E)])) RError
                        :: skipn (length h) (responses k cfg (h ++ h2)).
 Proof. exact declined_snapshot_no_effect. Qed.
+
+(* (4) as HTTP clients see it: EVERY GET request and EVERY request answered with a status other
+   than 200 (400, 403, 404, 409, 410 — malformed, unlisted, unknown client, conflicting AddVersion,
+   AddSnapshot for a client the server has never seen, unknown route) leaves no trace: all later
+   responses, for every client, are exactly what they would have been had the request never been
+   made — after any HTTP history, on either backend. *)
+Theorem C18_http_nonmutating_no_effect : forall k cfg allow h rq E h2,
+  cfg_ok cfg -> horacle_ok (h ++ (rq, E) :: h2) -> horacle_ok (h ++ h2) ->
+  exists r, hresponses k cfg allow (h ++ [(rq, E)]) = hresponses k cfg allow h ++ [r] /\
+    (rq_method rq = MGet \/ rs_status r <> 200 ->
+     hresponses k cfg allow (h ++ (rq, E) :: h2) =
+     hresponses k cfg allow h ++ r :: skipn (length h) (hresponses k cfg allow (h ++ h2))).
+Proof. exact http_nonmutating_no_effect. Qed.
